@@ -235,6 +235,12 @@ CENSUS_TIERS = {
 }
 
 
+# marathon (sim/iosim/src/marathon.rs): one Reader / Writer instance over a very long stream;
+# (profile tag, MiB).  The thorough size passes 2^32 bytes.  Started first, collected last: it
+# runs on one core next to the other batches.
+MARATHON_TIERS = {"quick": [("rel", 160), ("dbg", 24)], "thorough": [("rel", 4200), ("dbg", 300)]}
+
+
 def iosim_replay(path):
     rec = json.load(open(path))
     profile = {"rel": "sim-rel", "dbg": "sim-dbg"}.get(rec.get("profile", "rel"), "sim-rel")
@@ -258,6 +264,17 @@ def check_iosim(prop, tier, seed):
     summaries = {}
     contained = []
     build_s = 0.0
+    marathons = []
+    for tag, mib in MARATHON_TIERS[tier]:
+        binary, bs = cargo_build("iosim", {"rel": "sim-rel", "dbg": "sim-dbg"}[tag])
+        build_s += bs
+        mout = os.path.join(WORK, "%s-%s-marathon-%s.json" % (prop, tier, tag))
+        if os.path.exists(mout):
+            os.remove(mout)
+        mcmd = [binary, "marathon", "--side", sub, "--mib", str(mib), "--seed", str(seed), "--out", mout, "--replay-dir", REPLAYS, "--tag", tag]
+        if os.path.exists("/usr/bin/prlimit"):
+            mcmd = ["/usr/bin/prlimit", "--as=%d" % MEM_CAP] + mcmd
+        marathons.append((tag, mib, mout, subprocess.Popen(mcmd, cwd=VERIF, env=ENV, stdout=subprocess.PIPE, stderr=subprocess.PIPE, text=True)))
     for tag, profile in (("rel", "sim-rel"), ("dbg", "sim-dbg")):
         binary, bs = cargo_build("iosim", profile)
         build_s += bs
@@ -298,6 +315,26 @@ def check_iosim(prop, tier, seed):
         for v in cs["violations"]:
             found.append({"class": v["class"], "detail": v["detail"], "replay": v["replay"]})
 
+    marathon = []
+    for tag, mib, mout, proc in marathons:
+        try:
+            so, se = proc.communicate(timeout=3 * 3600)
+        except subprocess.TimeoutExpired:
+            proc.kill()
+            so, se = proc.communicate()
+        if proc.returncode != 0 or not os.path.exists(mout):
+            # an abort / hang of the code under test in the middle of the long stream
+            cls = "%s/marathon//" % sub
+            path = os.path.join(REPLAYS, "%s-marathon-%s-%d.json" % (prop, tag, seed))
+            with open(path, "w") as f:
+                json.dump({"property": prop, "profile": tag, "violation": {"class": cls, "detail": "the marathon process ended with status %s: %s" % (proc.returncode, se[-300:])}, "record": {"engine": "iosim-marathon", "side": sub, "seed": str(seed), "records": mib * (1 << 20) // 25}}, f, indent=1)
+            found.append({"class": cls, "detail": "marathon (%s, %d MiB) ended with status %s" % (tag, mib, proc.returncode), "replay": path})
+            continue
+        ms = json.load(open(mout))
+        marathon.append(ms)
+        for v in ms["violations"]:
+            found.append({"class": v["class"], "detail": v["detail"], "replay": v["replay"]})
+
     real = settle(prop, found, iosim_replay)
     if len(summaries) < 2:
         # a profile's batch was cut short by a hang/crash of the code under test: no coverage summary
@@ -326,6 +363,10 @@ def check_iosim(prop, tier, seed):
         "buffer_size_seen": rel["buffer_size"],
         "samples": rel["samples"][:2] + dbg["samples"][:1],
         "build_s": round(build_s, 2),
+        "marathon": {
+            "what": "ONE %s instance over a very long generated stream of records (i64, u32, word; LF / CRLF), read or written as single values, tuples, vectors of tuples and whole lines, with seeded mostly-large deliveries, stretches of small ones and bursts of Interrupted; state that accumulates over a long history (counters, offsets never rebased) is exercised" % ("Reader" if prop == "C08" else "Writer"),
+            "runs": [{"profile": "sim-dbg" if m["debug_assertions"] else "sim-rel", "records": m["records_done"], "stream_bytes": m["stream_bytes"], "passes_2_pow_32_bytes": m["stream_bytes"] > (1 << 32), "seam_calls": m["seam_calls"], "partial_transfers": m["partial_transfers"], "interrupted": m["interrupted"], "wall_s": m["wall_s"]} for m in marathon],
+        },
         "value_census": {
             "what": "integers through the seams by enumeration: all values of the 8- and 16-bit types; u32 and i32 in 65536 blocks of 65536 consecutive values, every K-th block (K = 1: all 2^32 values of each); "
             "for the 64/128-bit and pointer-sized types seeded blocks of 65536 consecutive values (straddling powers of ten, zero and the ends of the range among them) and the two-group family a*10^k+b with a, b in {10^j-1, 10^j, 10^j+1, 10^j/2, small}. "
@@ -443,7 +484,8 @@ def treap_replay(path):
     engine = (rec.get("record") or rec).get("engine", "")
     profile = "sim-rel" if engine == "treapsim-real" else "sim-dbg"
     binary, _ = cargo_build("treapsim", profile)
-    rc, out, err = run([binary, "replay", path], timeout=3600)
+    env = (rec.get("record") or {}).get("env")
+    rc, out, err = run([binary, "replay", path], timeout=3600, env=dict(ENV, **env) if env else None)
     return normalise_replay(rc, out + err, path)
 
 
@@ -610,8 +652,9 @@ def real_matrix(seed, count, big):
 
 def real_run(binary, cfg):
     cmd = [binary, "real", "--history", str(cfg["history"]), "--n", str(cfg["n"]), "--mode", str(cfg["mode"]), "--stride", str(cfg["stride"]), "--seed", str(cfg["seed"])]
+    env = dict(ENV, **cfg["env"]) if cfg.get("env") else None
     try:
-        rc, so, se = run(cmd, timeout=600)
+        rc, so, se = run(cmd, timeout=600, env=env)
     except subprocess.TimeoutExpired:
         return {"crash": "timeout (600 s)", "cfg": cfg}
     if rc != 0:
@@ -628,8 +671,22 @@ def real_record(cfg, violation):
     return {
         "property": "C16",
         "violation": violation,
-        "record": {"engine": "treapsim-real", "history_index": cfg["history"], "n": cfg["n"], "foreign_mode_index": cfg["mode"], "stride": cfg["stride"], "seed": cfg["seed"]},
+        "record": dict({"engine": "treapsim-real", "history_index": cfg["history"], "n": cfg["n"], "foreign_mode_index": cfg["mode"], "stride": cfg["stride"], "seed": cfg["seed"]}, **({"env": cfg["env"]} if cfg.get("env") else {})),
     }
+
+
+def environment_knobs():
+    """Names of environment variables the anchored crates read (std::env::var / var_os with a
+    literal name).  The pinned tree reads none; a change that adds a knob (a seed override, a
+    debug switch) is run with the knob set as well, because a deployment may set it."""
+    names = set()
+    for d in ("rlib/treap/src", "rlib/rand/src"):
+        for root, _, files in os.walk(os.path.join(REPO, d)):
+            for f in files:
+                if f.endswith(".rs"):
+                    text = open(os.path.join(root, f), errors="replace").read()
+                    names.update(re.findall(r'\bvar(?:_os)?\(\s*"([A-Za-z_][A-Za-z0-9_]*)"', text))
+    return sorted(names)
 
 
 def minimise_real(binary, cfg, cls):
@@ -677,6 +734,11 @@ def check_c16(tier, seed):
     binary, bs2 = cargo_build("treapsim", "sim-rel")
     build_s += bs2
     cfgs = real_matrix(seed, real_count, big)
+    knobs = environment_knobs()
+    for name in knobs[:8]:
+        for value in ("1", "42", "0", "true"):
+            for h, n in ((14, 4000), (14, 20_000), (15, 5000), (10, 5000), (0, 5000)):
+                cfgs.append({"history": h, "n": n, "mode": 0, "stride": 1, "seed": (seed * 31 + len(cfgs)) % (1 << 48), "env": {name: value}})
     t1 = time.time()
     with ThreadPoolExecutor(max_workers=workers()) as ex:
         results = list(ex.map(lambda cfg: real_run(binary, cfg), cfgs))
@@ -724,6 +786,7 @@ def check_c16(tier, seed):
             "(direction-agnostic) after every step under ties/spines. distinct_nontrivial = distinct final-tree digests of layer 1 + distinct (shape, pending-set) states of layer 2."
         ),
         "real_priority_process_runs": len(results),
+        "environment_knobs": {"what": "environment variables read by rlib_treap / rlib_rand through std::env::var with a literal name (static scan of the working tree); for each, cross-thread and plain histories are also run with the variable set to 1, 42, 0 and true", "found": knobs},
         "real_priority_distinct_configurations": len(config_keys),
         "real_priority_runs_by_history": by_history,
         "real_priority_foreign_draws_injected": foreign,
